@@ -72,6 +72,7 @@ def main(argv=None):
         known = load_known(prop)
         meta = mod.build(rep, tier=tier, seed=seed, known=known) or {}
         rep.known_by_id = {k["obligation"]: k for k in known if k.get("obligation")}
+        rep.known_list = known
     except Exception as ex:
         rep.errors.append(f"property module crashed: {ex!r}\n{traceback.format_exc()}")
     code = finish(rep, prop, tier, seed, level, meta, t0, verbose=a.verbose)
@@ -84,6 +85,16 @@ def finish(rep, prop, tier, seed, level, meta, t0, verbose=False):
     undecided = []
     unsound = []
     known_by_id = getattr(rep, "known_by_id", {})
+    region_hits = {}
+    for o in rep.obls:
+        fid = getattr(o, "finding_id", None)
+        if o.status == "refuted" and fid and (o.replay or {}).get("confirmed"):
+            region_hits.setdefault(fid, []).append(o)
+            o.status = "known-finding"
+    for fid, hits in region_hits.items():
+        kf = next((k for k in getattr(rep, "known_list", []) if k.get("id") == fid), None)
+        what = kf["what"] if kf else fid
+        rep.known_printed.append(f"{what} [{len(hits)} inputs of this run lie in the finding's region, e.g. {hits[0].id}]")
     for o in rep.obls:
         if o.status == "refuted" and o.id in known_by_id and (o.replay or {}).get("confirmed"):
             # a listed finding, re-confirmed on this run by its specific failing input
